@@ -84,7 +84,7 @@ CLAIMS["C01"] = dict(
     note="NOT decided: the property's sentence - equality of value, output and error class between compiler+VM and a definitional evaluator over all programs. That needs a step semantics of the VM composed with the emitted code (a simulation argument), which is outside what contracts on single functions express here. Listed so that changes to these three mechanisms are reported against C01 as well.",
     ref="DESIGN.md change log B.2")
 CLAIMS["C07"] = dict(
-    text="Proof (unbounded, any chain length) for the two tree builders that implement associativity and index nesting: mkLeftChain returns the left-associated tree of `x0 op1 x1 ... opn xn` (each operator node has the chain to its left as Left and the next operand as Right), mkIndex returns the left-nested index chain (each [i] / [i:j] applies to everything to its left), both stated against ghost functions defined by the documented rule; their panics and index/slice operations are unreachable/in range for the item counts the grammar produces.",
+    text="Proof (unbounded, any chain length) for the two tree builders that implement associativity and index nesting: mkLeftChain returns the left-associated tree of `x0 op1 x1 ... opn xn` (each operator node has the chain to its left as Left and the next operand as Right), mkIndex returns the left-nested index chain (each [i] / [i:j] applies to everything to its left), both stated against ghost functions defined by the documented rule; their panics and index/slice operations are unreachable/in range for the item counts the grammar produces. Each of the five binary precedence levels (boolOp, relational, logic, addsub, divmul) is checked to parse `operand (op operand)*` with both the first and the repeated operand taken from the next tighter level and to hand the items to mkLeftChain.",
     note="NOT decided: the round trip print-then-parse over all trees, precedence levels and layout insensitivity: the grammar functions in parser.go are closures assembled from combinators whose result lists have no contract (C13 decides positions only), and no printer exists in the repository. Assumed: the item lists handed to the builders have the shapes the grammar produces (odd length with operators at odd positions; type assertions succeed).",
     ref="DESIGN.md change log B.2")
 
